@@ -196,21 +196,26 @@ theorem stepCompile_of_lost (env : Env) (st : State) (r : CReq) (h : r.out = .re
     stepCompile env st r = stepCompileLost st r := by
   simp [stepCompile, h]
 
-/-- nothing happens in the worker, nothing is compiled, but the callback runs -/
+/-- nothing happens in the worker, nothing is compiled, nothing is acknowledged -/
 theorem stepCompileLost_spec (st : State) (r : CReq) :
-    ∃ b', withAck (st r.w).bel r.db (preargs (st r.w).bel r) = some b' ∧
-      (stepCompileLost st r).1 = upd st r.w ⟨b'.forget, (st r.w).act⟩ ∧
-      (stepCompileLost st r).2.used = none ∧ (stepCompileLost st r).2.res = .unpickleErr := by
-  obtain ⟨b', hb'⟩ := withAck_defined (st r.w).bel r
-  refine ⟨b', hb', ?_⟩
-  simp [stepCompileLost, hb']
+    (stepCompileLost st r).1 = upd st r.w ⟨(st r.w).bel.forget, (st r.w).act⟩ ∧
+      (stepCompileLost st r).2.used = none ∧ (stepCompileLost st r).2.res = .syncFail :=
+  ⟨rfl, rfl, rfl⟩
+
+/-- … for every worker: believed slots and the worker process are as before -/
+theorem stepCompileLost_same (st : State) (r : CReq) (i : Nat) :
+    (∀ σ, ((stepCompileLost st r).1 i).bel.get σ = (st i).bel.get σ) ∧
+      ((stepCompileLost st r).1 i).act = (st i).act := by
+  rw [(stepCompileLost_spec st r).1]
+  by_cases hi : i = r.w
+  · subst hi; rw [upd_same]; exact ⟨fun σ => Side.forget_get _ σ, rfl⟩
+  · rw [upd_other _ _ _ _ hi]; exact ⟨fun _ => rfl, rfl⟩
 
 theorem stepCompile_frame' (env : Env) (st : State) (r : CReq) (i : Nat) (h : i ≠ r.w) :
     (stepCompile env st r).1 i = st i := by
   by_cases hl : r.out = .requestUnreadable
-  · rw [stepCompile_of_lost env st r hl]
-    obtain ⟨b', _, hst, _⟩ := stepCompileLost_spec st r
-    rw [hst]; exact upd_other _ _ _ _ h
+  · rw [stepCompile_of_lost env st r hl, (stepCompileLost_spec st r).1]
+    exact upd_other _ _ _ _ h
   · rw [stepCompile_of_read env st r hl]; exact stepCompile_frame env st r i h
 
 end EdbVerif.Sync
